@@ -96,7 +96,7 @@ def gen_rows(rng, n, first_id=1, year=2025, allow_rich=False, neg_rate=0.2):
     return rows
 
 
-def gen_layout(rng, rich=False, simple=False):
+def gen_layout(rng, rich=False, simple=False, delimiter=Ellipsis):
     """A column layout + file conventions."""
     lay = {
         'mode': 1,                  # 1: {description} (+extra fields); 2: captures + template
@@ -113,7 +113,11 @@ def gen_layout(rng, rich=False, simple=False):
         'location': False,
         'template': None,
     }
-    if lay['sign'] == '' and rng.random() < 0.15:
+    if delimiter is not Ellipsis:
+        lay['delimiter'] = delimiter
+    if rng.random() < (0.15 if lay['sign'] == '' else 0.25):
+        # `negate_amount: true` in the source's settings entry.  Together with {-amount} it says the same thing twice (one flip);
+        # together with {+amount} the format string's "made absolute" stands (C05: "made absolute for {+amount}").
         lay['negate_setting'] = True
     if lay['delimiter'] == 'regex':
         # regex rows: date desc amount separated by 2+ spaces; keep it to the three basic columns
